@@ -396,13 +396,16 @@ func (x *Exec) applyContract(c *Contract, name string, args []Val, names []strin
 			x.havocMatching([]string{"*"})
 		}
 	}
+	var nr Term
+	if c.Fresh && results.Len() >= 1 {
+		nr = x.newRef() // before the result is introduced: the result lies below the new frontier
+	}
 	res := x.resultVal(results, "res."+shortType(lastSeg(name)))
 	if c.Fresh && results.Len() >= 1 {
 		r := res
 		if len(res.Tuple) > 0 {
 			r = res.Tuple[0]
 		}
-		nr := x.newRef()
 		so := x.smt.sortOf(results.At(0).Type())
 		if so == "Slice" {
 			x.smt.assume(implies(x.reach, "(= (sref "+r.T+") "+nr+")"))
